@@ -364,6 +364,7 @@ func gen() ([]byte, error) {
 		}
 	}
 	fmt.Fprintf(&b, "Definition frp_tls_head_byte : Z := %d%%Z.\n", head)
+	fmt.Fprintf(&b, "Definition sniff_shape_today : sniff_shape := %s.\n", sniffShape(tf))
 	fmt.Fprintf(&b, "Definition sniff_cases : list (string * string) := [\n  %s\n].\n", strings.Join(sniffCases, ";\n  "))
 
 	// (a) auth setters
@@ -905,6 +906,98 @@ func tlsCfgExpr(fd *ast.FuncDecl, e ast.Expr, fieldIsOrigin bool) string {
 		}
 	}
 	return unknown()
+}
+
+// sniffShape: control flow of CheckAndEnableTLSServerConnWithTimeout.  Top-level statements before the
+// switch: no return and no branching except exactly "if <err> != nil { return }"; the switch is the last
+// statement but the final bare return; its default clause starts with "if <3rd parameter> { ...; return }".
+func sniffShape(f *ast.File) string {
+	unknown := func(why string) string { return "(SsUnknown " + q(why) + ")" }
+	for _, d := range f.Decls {
+		fd, ok := d.(*ast.FuncDecl)
+		if !ok || fd.Name.Name != "CheckAndEnableTLSServerConnWithTimeout" || fd.Body == nil {
+			continue
+		}
+		var pnames []string
+		for _, fl := range fd.Type.Params.List {
+			for _, n := range fl.Names {
+				pnames = append(pnames, n.Name)
+			}
+		}
+		if len(pnames) != 4 {
+			return unknown("parameters")
+		}
+		tlsOnly := pnames[2]
+		errChecks, sawSwitch := 0, false
+		for _, st := range fd.Body.List {
+			if sawSwitch {
+				if r, ok := st.(*ast.ReturnStmt); ok && len(r.Results) == 0 {
+					continue
+				}
+				return unknown("after the switch: " + text(st))
+			}
+			switch x := st.(type) {
+			case *ast.AssignStmt, *ast.ExprStmt, *ast.DeclStmt:
+				hasRet := false
+				ast.Inspect(st, func(n ast.Node) bool {
+					switch n.(type) {
+					case *ast.ReturnStmt, *ast.FuncLit:
+						hasRet = true
+					}
+					return true
+				})
+				if hasRet {
+					return unknown(text(st))
+				}
+			case *ast.IfStmt:
+				be, ok := x.Cond.(*ast.BinaryExpr)
+				if !ok || x.Init != nil || x.Else != nil || be.Op != token.NEQ || lastName(be.X) != "err" || lastName(be.Y) != "nil" || len(x.Body.List) != 1 {
+					return unknown("before the switch: if " + text(x.Cond))
+				}
+				if r, ok := x.Body.List[0].(*ast.ReturnStmt); !ok || len(r.Results) != 0 {
+					return unknown("before the switch: body of if " + text(x.Cond))
+				}
+				errChecks++
+			case *ast.SwitchStmt:
+				sawSwitch = true
+				if x.Tag != nil || x.Init != nil {
+					return unknown("switch with tag")
+				}
+				okDefault := false
+				for _, c := range x.Body.List {
+					cc := c.(*ast.CaseClause)
+					if cc.List != nil {
+						continue
+					}
+					if len(cc.Body) == 0 {
+						return unknown("empty default")
+					}
+					is, ok := cc.Body[0].(*ast.IfStmt)
+					if !ok || is.Init != nil || is.Else != nil || len(is.Body.List) == 0 {
+						return unknown("default clause")
+					}
+					id, ok := is.Cond.(*ast.Ident)
+					if !ok || id.Name != tlsOnly {
+						return unknown("default clause: if " + text(is.Cond))
+					}
+					if r, ok := is.Body.List[len(is.Body.List)-1].(*ast.ReturnStmt); !ok || len(r.Results) != 0 {
+						return unknown("default clause: no return under " + tlsOnly)
+					}
+					okDefault = true
+				}
+				if !okDefault {
+					return unknown("no default clause")
+				}
+			default:
+				return unknown("before the switch: " + text(st))
+			}
+		}
+		if !sawSwitch || errChecks != 1 {
+			return unknown(fmt.Sprintf("switch=%v err checks=%d", sawSwitch, errChecks))
+		}
+		return "SsOk"
+	}
+	return unknown("function not found")
 }
 
 // isConfigForce: <x>.cfg.Transport.TLS.Force
